@@ -85,7 +85,9 @@ package contextscope
 //@ func NewIsolated [C11 C12]
 //@   requires parent != nil
 //@   ensures typeis(result0, "*Isolated") && fresh(ref(as(result0, "*Isolated"))) && as(result0, "*Isolated").parent == parent && as(result0, "*Isolated").done != nil
-//@ func NewIsolated$1 [C11]
+// (C12: the watcher ends the isolated context through Kill / Stop only - the one place that
+// closes the done channel under the mutex - never by closing the channel itself)
+//@ func NewIsolated$1 [C11 C12]
 //@   layers contract trace
 //@   requires isolated.done != nil && parent != nil
 //@   trace ContextScope.Errors as ERRS bind errs
